@@ -1,26 +1,34 @@
 (* C02 — property theorems.  Only statements, each closed by [exact], each followed by
    Print Assumptions.
 
-   Not proved in general (checked instead by the verified checker on every output, and proved
-   for every point set of the 4x4, 3x4 and 5x3 grids below):
-     hull_label_spec_partial : forall m pts slack, pts sorted by (j,i), 0 <= i <= m, 0 <= slack ->
-                         HullSpec pts (hull_label m pts slack).
-       Proved parts: (a) C02_vertices_subset; local convexity of every non-wrapping triple
-       C02_emit_chain_convex; (c) for the whole lower chain C02_lower_pass_contains (monotone-chain
-       argument, all inputs).  Missing lemmas: upper_pass_contains (the mirror image of
-       lower_pass_contains for decreasing columns, on top of the lower chain, through the guard),
-       turn_strict (the two triples around the U-turn at end_j and the wrap-around triples at
-       start_j are strict after the final prune), stack_nodup.
-     guard_irrelevant  : ... -> hull_label m pts slack = hull_label m pts slack'.  Missing lemma:
-       guard_only_blocks_duplicate (the guard fires only when the stack already holds every
-       distinct pixel, i.e. the blocked point is already on the stack) + stack_nodup.
-     no_overflow       : ... -> zlen (hull_label m pts slack) <= slack + zlen pts.  Missing: stack_nodup.
-     hull_unique up to rotation: the vertex SET and the list up to permutation are determined
-       (C02_hull_vertices_unique); missing: successor_unique (same sense => same cyclic successor). *)
+   State of "HullSpec (hull_label m pts slack) for ALL inputs" (= HullLabelCorrect) and of
+   HullNoOverflow; both are explicit premises of the two batch theorems
+   C02_convex_hull_ijv_correct_partial / C02_convex_hull_correct_partial, both hold on every point
+   set of the 4x4, 3x4, 5x3 grids (Finite theorems below), and the verified checker tests them on
+   every output.
+     Proved for all inputs: (a) C02_vertices_subset; local convexity of every non-wrapping output
+       triple C02_emit_chain_convex; (c) for the whole lower chain C02_lower_pass_contains; (c) for
+       the whole upper chain of the guard-free second loop C02_upper_chain_contains (mirror image,
+       C02_emit_above_step); writes of both loops stay inside the label's rows
+       (C02_lower_loop_within, C02_upper_loop_within), the output overruns them by at most the one
+       row of the final write (C02_no_overflow_partial).
+     REFUTED: stack_nodup (C02_stack_nodup_refuted): with slack > 0 the second loop pushes a point
+       of the lower chain a second time (V-shaped sets); with slack 0 the guard blocks exactly
+       that push.  The guard lemmas must therefore be stated with "at most the top element
+       repeats a lower-chain vertex, and it is removed by the next EMIT".
+     Missing lemmas: pivot_protected (the second loop never pops the right-most vertex R, so the
+       real stack is  upper chain ++ R :: lower part  and C02_upper_chain_contains transfers);
+       turn_strict (triples around R and around start_j are strict after the final prune: by the
+       two containment theorems, unless all pixels are collinear); dead_top (a repeated top
+       element is popped by the next EMIT: from cross(x,p,t) >= 0, cross(x,p,q) >= 0 follows
+       cross(t,p,q) <= 0) => guard_irrelevant and final_write_strict => HullNoOverflow.
+     hull_unique up to rotation: vertex SET and list up to permutation are determined
+       (C02_hull_vertices_unique); missing: successor_unique. *)
 From Coq Require Import ZArith List Bool Permutation.
 From Centro Require Import Base.Sx Model.Hull Spec.HullSpec
   Proofs.HullEmit Proofs.HullGeom Proofs.HullPerm Proofs.HullBatch Proofs.HullTop
-  Proofs.HullOutline Proofs.HullUnique Proofs.HullBelow Proofs.HullSweep Proofs.HullSweep44 Proofs.HullSweep34 Proofs.HullSweep53.
+  Proofs.HullOutline Proofs.HullUnique Proofs.HullBelow Proofs.HullAbove Proofs.HullCorrect
+  Proofs.HullImage Proofs.HullWrites Proofs.HullSweep Proofs.HullSweep44 Proofs.HullSweep34 Proofs.HullSweep53.
 Import ListNotations.
 Open Scope Z_scope.
 
@@ -89,6 +97,75 @@ Theorem C02_lower_pass_contains : forall m pts p0 e, In p0 pts ->
   jdesc st1 /\ chain_ok st1 /\ forall s, In s pts -> snd s <= e -> edges_ok st1 s.
 Proof. exact lower_pass_contains. Qed.
 Print Assumptions C02_lower_pass_contains.
+
+(* mirror image of C02_emit_below_step for the second loop (columns decreasing towards the top) *)
+Theorem C02_emit_above_step : forall (st : list pt) (p s : pt), st <> [] -> jasc st -> chain_ok st -> snd p < snd (hd p st) ->
+  (  (snd (hd p st) <= snd s /\ edges_ok st s /\ top_ok st s)
+   \/ (snd s = snd p /\ fst s <= fst p)) ->
+  edges_ok (p :: prune st p) s /\ jasc (p :: prune st p) /\ chain_ok (p :: prune st p).
+Proof. exact emit_above_step. Qed.
+Print Assumptions C02_emit_above_step.
+
+(* (c) for the upper chain, all inputs: the guard-free second EMIT loop over columns e .. lo *)
+Theorem C02_upper_chain_contains : forall pts lo e,
+  (forall s, In s pts -> 0 <= fst s) -> (forall s, In s pts -> snd s <= e) ->
+  let stU := fold_left (upper_emit_free (build_upper pts)) (rev (cols_up lo e)) [] in
+  jasc stU /\ chain_ok stU /\ forall s, In s pts -> lo <= snd s -> edges_ok stU s.
+Proof. exact upper_chain_contains. Qed.
+Print Assumptions C02_upper_chain_contains.
+
+(* C19's write bound for the convex-hull kernel: every stack of the first loop holds at most nv rows,
+   every stack of the second loop at most max(its start, cap) rows (the guard), cap = pixidx - outidx;
+   so no write of the two loops reaches row pixidx *)
+Theorem C02_lower_loop_within : forall m pts cols, NoDup cols ->
+  zlen (fold_left (lower_emit m (build_lower m pts)) cols []) <= zlen pts.
+Proof. exact lower_loop_within. Qed.
+Print Assumptions C02_lower_loop_within.
+
+Theorem C02_upper_loop_within : forall upper cap cols st,
+  zlen (fold_left (upper_emit upper cap) cols st) <= Z.max (zlen st) cap.
+Proof. exact upper_loop_within. Qed.
+Print Assumptions C02_upper_loop_within.
+
+(* no_overflow, partial: kernel_pre (0 <= slack) -> the label's output ends at most ONE row past its
+   own input rows (the unguarded final write); missing: final_write_strict *)
+Theorem C02_no_overflow_partial : forall m pts slack, 0 <= slack ->
+  zlen (hull_label m pts slack) <= slack + zlen pts + 1.
+Proof. exact no_overflow_partial. Qed.
+Print Assumptions C02_no_overflow_partial.
+
+(* the proposed lemma stack_nodup is false for the faithful model *)
+Theorem C02_stack_nodup_refuted : exists m pts slack, label_ok m pts /\ 0 <= slack /\ ~ NoDup (stack2 m pts slack)
+  /\ NoDup (stack2 m pts 0) /\ hull_label m pts slack = hull_label m pts 0.
+Proof. exact stack_nodup_refuted. Qed.
+Print Assumptions C02_stack_nodup_refuted.
+
+(* converse of the pre-filter theorem: the kernel's polygon for the OUTLINE pixels is a hull polygon of
+   ALL pixels of the label (an affine function minimal at an interior pixel is constant) *)
+Theorem C02_outline_hull_is_full_hull : forall im l V, 0 < l ->
+  HullSpec (pts_of (outline_ijv im) l) V -> HullSpec (pts_of (all_ijv im) l) V.
+Proof. exact outline_hull_is_full_hull. Qed.
+Print Assumptions C02_outline_hull_is_full_hull.
+
+(* the batch function: lexsort, request walk with slack >= 0, reorder, absent labels — all discharged;
+   the two per-label facts are the premises *)
+Theorem C02_convex_hull_ijv_correct_partial : HullLabelCorrect -> HullNoOverflow ->
+  forall ijv indexes, NoDup indexes -> (forall x, In x ijv -> 0 <= r_i x) ->
+  let res := fst (convex_hull_ijv ijv indexes) in
+  BatchSpec ijv indexes (rows_of res) (counts_of res).
+Proof. exact convex_hull_ijv_correct_partial. Qed.
+Print Assumptions C02_convex_hull_ijv_correct_partial.
+
+(* the image entry point, against ALL pixels of every requested label *)
+Theorem C02_convex_hull_correct_partial : HullLabelCorrect -> HullNoOverflow ->
+  forall im indexes, NoDup indexes ->
+  match convex_hull im indexes with
+  | HEmpty2 => indexes = []
+  | HBlank n => n = length indexes /\ forall l, pts_of (all_ijv im) l = []
+  | HRows r => BatchSpec (all_ijv im) indexes (rows_of (fst r)) (counts_of (fst r))
+  end.
+Proof. exact convex_hull_correct_partial. Qed.
+Print Assumptions C02_convex_hull_correct_partial.
 
 (* the outline pre-filter only drops pixels that are no vertex of the hull of the full set *)
 Theorem C02_outline_keeps_extreme : forall S V v, HullSpec S V -> In v V ->
